@@ -407,6 +407,10 @@ CF = 'core::ops::ControlFlow'
 def _branch(it, st, args, fn, bb, frame, t, depth, site):
     # `?` on a value whose variant is already known on this path (it was built by a combinator above): no second decision
     x = strip(args[0]) if args else ('unk', '')
+    if x[0] == 'call' and re.search(r'FromResidual<.*>>?::from_residual$', x[1]) and CF in it.facts.adts:
+        # `expr?` where expr is itself the early return of an inner `?` (a helper that was opened up): the failure passes through
+        yield st, _mk(CF, 'Break', args[0])
+        return
     if x[0] == 'agg' and x[1] == 'adt' and x[2] in (OPT, RES) and CF in it.facts.adts:
         if x[3] in ('Some', 'Ok'):
             yield st, _mk(CF, 'Continue', x[4][0][1])
@@ -916,6 +920,14 @@ class Interp:
                 if r is not None:
                     yield st, r
                     return
+        if name in ('<core::result::Result<T, E> as core::ops::Try>::branch', '<core::option::Option<T> as core::ops::Try>::branch') and not self.mode.get('combinators'):
+            # `?` on a value whose variant is a literal on this path takes that variant's way (no decision to make) - in every mode
+            got = False
+            for st2, r in _branch(self, st, args, fn, bb, frame, t, depth, site):
+                got = True
+                yield st2, r
+            if got:
+                return
         if self.mode.get('combinators'):
             h = COMBINATORS.get(name)
             if h is not None:
